@@ -364,6 +364,9 @@ IDL = "pkg/infrastructure/ast/ast_java/java_identify."
 row(props=["C18"], func=IDL + "(JavaIdentifierListener).EnterExpression", params=["s", "ctx"], kind="emits", target="globalstore:" + IDL + "currentMethod.IsReturnNull", tag={}, total=1,
     when='String(call("reflect.TypeOf", GetParent(ctx))) == "*parser.StatementContext" && lower(GetText(GetChild(GetParent(ctx), 0))) == "return" && contains(GetText(ctx), "null")',
     fields={"value": "true"}, what="a method is nullable as soon as one of its return statements returns null: the flag is only ever set, a later return does not clear it")
+row(props=["C02"], func=FL + "(JavaFullListener).EnterLocalVariableDeclaration", params=["s", "ctx"], kind="emits", target="mapstore:localVars", tag={}, total=1, each={"as": "d"},
+    when="TypeType(ctx) != nil", fields={"key": "GetText(Identifier(VariableDeclaratorId(d)))", "value": "GetText(TypeType(ctx))"},
+    what="every declarator of a local variable declaration is registered with the declared type, whatever modifiers (final, annotations) precede the type")
 
 json.dump({"e5": rows}, open(os.path.join(os.path.dirname(os.path.dirname(os.path.abspath(__file__))), "spec", "e5.json"), "w"), indent=1, ensure_ascii=False)
 print(len(rows), "rows")
